@@ -119,3 +119,38 @@ target("breezy/bzr/transform.py::InventoryTreeTransform.iter_tree_children", par
 undecided("that the preview tree of a transform equals the tree after apply (tree comparison over external inventories / indices)")
 undecided("the ordering 'malformed check before the first file-system effect' is an obligation of TreeTransform.apply, discharged in the C13 check "
           "(ensures[conflicts_checked_before_anything_is_touched])")
+
+# ---- the preview tree reads an entry the transform did not give new content from the underlying tree AT THE PATH THE UNDERLYING TREE HAS
+#      IT (the transform may have renamed or moved it) - finding F19, fixed by the commit named in known_findings.json
+FILEOBJ = Opaque("FileObj")
+PathToId = ufunc("PathToId", STR, Opt(BYTES))
+ContentChanged = ufunc("ContentChanged", Opt(BYTES), BOOL)
+OrigPath = ufunc("OrigPath", BYTES, STR)           # underlying_tree.id2path(file_id)
+TreeFile = ufunc("TreeFile", STR, FILEOBJ)         # underlying_tree.get_file(path)
+TreeLink = ufunc("TreeLink", STR, STR)
+TidOfPreviewPath = ufunc("TidOfPreviewPath", STR, STR)
+LimboName = ufunc("LimboName", STR, STR)
+Opened = ufunc("Opened", STR, FILEOBJ)
+ReadLink = ufunc("ReadLink", STR, STR)
+cls("InventoryPreviewTree", fields={"_transform": ANY})
+assumed("self.path2id", pure=True, no_raise=True, returns=lambda c: PathToId(c.args[0]))
+assumed("self._content_change", pure=True, no_raise=True, returns=lambda c: ContentChanged(c.args[0]))
+assumed("self._transform._tree.id2path", pure=True, returns=lambda c: OrigPath(c.args[0].val) if isinstance(c.args[0].s, Opt) else OrigPath(c.args[0]),
+        raises={"Exception": None})
+assumed("self._transform._tree.get_file", pure=True, returns=lambda c: TreeFile(c.args[0]), raises={"Exception": None})
+assumed("self._transform._tree.get_symlink_target", pure=True, returns=lambda c: TreeLink(c.args[0]), raises={"Exception": None})
+assumed("self._path2trans_id", pure=True, no_raise=True, returns=lambda c: TidOfPreviewPath(c.args[0]))
+assumed("self._transform._limbo_name", pure=True, no_raise=True, returns=lambda c: LimboName(c.args[0]))
+assumed("open", pure=True, returns=lambda c: Opened(c.args[0]), raises={"OSError": None})
+assumed("osutils.readlink", pure=True, returns=lambda c: ReadLink(c.args[0]), raises={"OSError": None})
+PVT = "breezy/bzr/transform.py::InventoryPreviewTree."
+target(PVT + "get_file", params=dict(path=STR), result=FILEOBJ, modifies=[],
+       ensures={"unchanged_content_is_read_where_the_underlying_tree_has_it": lambda c: If(
+           ContentChanged(PathToId(c.old.path)), c.result == Opened(LimboName(TidOfPreviewPath(c.old.path))),
+           Implies(Not(PathToId(c.old.path).is_none), c.result == TreeFile(OrigPath(PathToId(c.old.path).val))))},
+       raises={"Exception": True}, canary=lambda c: ContentChanged(PathToId(c.old.path)))
+target(PVT + "get_symlink_target", params=dict(path=STR), result=STR, modifies=[],
+       ensures={"unchanged_target_is_read_where_the_underlying_tree_has_it": lambda c: If(
+           ContentChanged(PathToId(c.old.path)), c.result == ReadLink(LimboName(TidOfPreviewPath(c.old.path))),
+           Implies(Not(PathToId(c.old.path).is_none), c.result == TreeLink(OrigPath(PathToId(c.old.path).val))))},
+       raises={"Exception": True}, canary=lambda c: ContentChanged(PathToId(c.old.path)))
